@@ -195,7 +195,8 @@ theorem c15_verbatim_line (cfg : Config) (st : St) (l : LineIn) (o : OutLine) (s
 theorem c15_verbatim_wrap (unit : Text) (m : Nat) (o : OutLine) (h : o.skipAlign = true) :
     wrapLine unit m o = [o.text] := by
   unfold wrapLine
-  split <;> simp [h]
+  rw [h]
+  split <;> rfl
 
 /-! ## Clause 4, the web IDE formatter -/
 
@@ -275,5 +276,246 @@ theorem c15_web_idempotent_counterexample :
 comment are trimmed and re-indented (known finding C15-web-multiline-trivia). -/
 theorem c15_web_comment_counterexample :
     webFormat (txt "(* a\n     b *)\n") = txt "(* a\nb *)\n" := by decide
+
+/-! ## Robustness: the per-line loop never panics in the aligned style, and does in the indented style -/
+
+theorem curIndent_aligned_nonneg (cfg : Config) (indent : Int) (toks : List Tok)
+    (hc : cfg.endStyle = .aligned) (hi : 0 ≤ indent) :
+    0 ≤ (curIndent cfg indent toks).1 ∧ (curIndent cfg indent toks).2 = false := by
+  unfold curIndent
+  split
+  · split
+    · simp only [hc]
+      exact ⟨by simp only [if_true]; omega, by simp⟩
+    · exact ⟨hi, rfl⟩
+  · exact ⟨hi, rfl⟩
+
+/-- With `endKeywordStyle = aligned` (the default) `format_document` never reaches the negative
+`current_indent` that makes `indent_unit.repeat(current_indent as usize)` panic: for every list of
+lines, from every state with a non-negative indent. -/
+theorem c15_no_panic_aligned (cfg : Config) (hc : cfg.endStyle = .aligned) (ls : List LineIn) (st : St)
+    (hi : 0 ≤ st.indent) : (runLines cfg st ls).isSome = true := by
+  induction ls generalizing st with
+  | nil => simp [runLines]
+  | cons l rest ih =>
+    unfold runLines
+    have hci := curIndent_aligned_nonneg cfg st.indent l.toks hc hi
+    unfold stepLine
+    by_cases hb : l.inBlockComment = true
+    · simp only [hb, if_true]
+      have := ih { st with inVar := nextInVar st.inVar l.toks } hi
+      cases hr : runLines cfg { st with inVar := nextInVar st.inVar l.toks } rest with
+      | none => rw [hr] at this; simp at this
+      | some os => simp
+    · simp only [hb, Bool.false_eq_true, if_false]
+      by_cases he : (trim l.text).isEmpty = true
+      · simp only [he, if_true]
+        have := ih { st with inVar := nextInVar st.inVar l.toks } hi
+        cases hr : runLines cfg { st with inVar := nextInVar st.inVar l.toks } rest with
+        | none => rw [hr] at this; simp at this
+        | some os => simp
+      · simp only [he, Bool.false_eq_true, if_false]
+        generalize curIndent cfg st.indent l.toks = ci at hci
+        have hneg : ¬ ci.1 < 0 := by omega
+        simp only [hneg, if_false]
+        have hnext : 0 ≤ nextIndent ci.1 ci.2 l.toks := by
+          unfold nextIndent
+          rw [hci.2]
+          simp only [Bool.false_eq_true, if_false]
+          split <;> omega
+        generalize hst2 : ({ indent := nextIndent ci.1 ci.2 l.toks, inVar := nextInVar st.inVar l.toks } : St) = st2
+        have hi2 : 0 ≤ st2.indent := by rw [← hst2]; exact hnext
+        have := ih st2 hi2
+        cases hr : runLines cfg st2 rest with
+        | none => rw [hr] at this; simp at this
+        | some os => simp
+
+def tk (name : String) (kind : K) (text : String) : Tok := { name := name, kind := kind, text := text.toList }
+
+def lineOf (text : String) (toks : List Tok) : LineIn :=
+  { text := text.toList, toks := toks, inBlockComment := false, hasLineComment := false, hasPragma := false,
+    hasString := false }
+
+def cfgDefault : Config :=
+  { indentWidth := 4, insertSpaces := true, kwCase := .preserve, alignVar := true, alignAsg := true,
+    maxLen := none, style := .spaced, endStyle := .aligned }
+
+/-- non-vacuity -/
+example : (runLines cfgDefault {} [lineOf "END_IF" [tk "KwEndIf" .Kw "END_IF"], lineOf "x" [tk "Ident" .Ident "x"]]).isSome
+    = true :=
+  c15_no_panic_aligned _ rfl _ {} (by decide)
+
+/-- "For every configuration … the formatted text …" is FALSE: with `endKeywordStyle = indented` an `END_`
+keyword at indent level 0 drives `indent_level` to -1 and the next code line panics
+(`END_IF` / `x`; in valid programs: `END_PROGRAM` after `REPEAT … UNTIL … END_REPEAT`, followed by another
+POU).  Known finding C15-indent-underflow-panic; replayed: the LSP server process exits. -/
+theorem c15_panic_counterexample :
+    formatDocument { cfgDefault with endStyle := .indented }
+      { lines := [lineOf "END_IF" [tk "KwEndIf" .Kw "END_IF"], lineOf "x" [tk "Ident" .Ident "x"]],
+        crlf := false, endsNl := false } = none := by decide
+
+/-! ## Clause 1: tokens that span several lines are not handled by the line loop -/
+
+/-- A non-blank line that carries no token start and no mask (the interior of a multi-line pragma, of
+an unterminated comment …) is emitted as pure indentation: its text is dropped.  Known finding
+C15-multiline-pragma. -/
+theorem c15_tokenless_line_dropped (cfg : Config) (st : St) (text : Text) (o : OutLine) (st' : St)
+    (h : stepLine cfg st { text := text, toks := [], inBlockComment := false, hasLineComment := false,
+                           hasPragma := false, hasString := false } = some (o, st')) :
+    o.text = [] ∨ ∃ n, o.text = repeatText (indentUnit cfg) n := by
+  unfold stepLine at h
+  simp only [Bool.false_eq_true, if_false] at h
+  split at h
+  · simp only [Option.some.injEq, Prod.mk.injEq] at h
+    obtain ⟨rfl, _⟩ := h
+    exact Or.inl rfl
+  · split at h
+    · exact absurd h (by simp)
+    · simp only [Option.some.injEq, Prod.mk.injEq] at h
+      obtain ⟨rfl, _⟩ := h
+      right
+      refine ⟨(curIndent cfg st.indent []).1.toNat, ?_⟩
+      simp [emitLine, formatLineTokens, formatLineTokensFrom]
+
+/-- The concrete witness: `{attribute 'foo'` / `   bar := 1}` — the second line of the pragma is lost. -/
+theorem c15_pragma_counterexample :
+    formatDocument cfgDefault
+      { lines := [{ lineOf "{attribute 'foo'" [] with hasPragma := true }, lineOf "   bar := 1}" []],
+        crlf := false, endsNl := false } = some (txt "{attribute 'foo'\n") := by decide
+
+/-! ## Clause 1: the alignment pass edits inside a literal -/
+
+/-- `align_var_block_colons` pads at the first ':' of the line even when it is inside a string literal:
+`'a:b',` on a continuation line of a VAR block becomes `'a    :b',`.  Known finding
+C15-var-colon-in-literal. -/
+theorem c15_var_colon_counterexample :
+    (alignVarColons
+      [ { text := txt "    arr: INT;", inVar := true, colon := some 7, skipAlign := false },
+        { text := txt "    'a:b',", inVar := true, colon := findTypeColon (txt "    'a:b',"), skipAlign := true } ]).map
+      (·.text) = [txt "    arr: INT;", txt "    'a :b',"] := by decide
+
+/-! ## Clause 3: range and on-type edits -/
+
+/-- The edit built by `format_lines_edit(source, formatted, a, b)` replaces exactly the source lines
+`a..=b` by the formatted lines `a..=b` and leaves every other line alone — for every source, every
+formatted text and every line range that does not include the last line (LF line ends).
+So the edit re-lays-out only the lines it covers *provided formatted line i is the layout of source
+line i*; that is the case as long as no line was wrapped (the wrapping pass is the only one that changes
+the number of lines) and fails otherwise: `c15_range_edit_counterexample`. -/
+theorem c15_range_edit (src formatted : Text) (a b : Nat) (e : Edit)
+    (hcr : containsText src ['\r', '\n'] = false)
+    (hfcr : ∀ l ∈ splitOn '\n' formatted, stripCR l = l)
+    (hab : a ≤ b) (hb : b + 1 < (srcLines src).length)
+    (he : formatLinesEdit src formatted a b = some e) :
+    srcLines (applyLineEdit src e) =
+      (srcLines src).take a ++ ((splitOn '\n' formatted).drop a).take (b + 1 - a) ++
+        (srcLines src).drop (b + 1) := by
+  have hmap : (splitOn '\n' formatted).map stripCR = splitOn '\n' formatted := by
+    rw [List.map_congr_left hfcr, List.map_id']
+  unfold formatLinesEdit at he
+  simp only [hcr, hmap, newlineOf, Bool.false_eq_true, if_false] at he
+  have h1 : ¬ a ≥ (srcLines src).length := by omega
+  simp only [h1, if_false] at he
+  split at he
+  · exact absurd he (by simp)
+  · rename_i hlen
+    have hlen' : b < (splitOn '\n' formatted).length := by
+      simp only [Bool.or_eq_true, decide_eq_true_eq, not_or] at hlen
+      omega
+    simp only [hb, if_true, Bool.true_or, decide_true, Option.some.injEq] at he
+    subst he
+    unfold applyLineEdit
+    simp only [if_true]
+    have hsl : ∀ x ∈ (srcLines src).take a, '\n' ∉ x := fun x hx =>
+      splitOn_mem_no_sep '\n' src x (List.mem_of_mem_take hx)
+    have hpk : ∀ x ∈ ((splitOn '\n' formatted).drop a).take (b + 1 - a), '\n' ∉ x := fun x hx =>
+      splitOn_mem_no_sep '\n' formatted x (List.mem_of_mem_drop (List.mem_of_mem_take hx))
+    have hpne : ((splitOn '\n' formatted).drop a).take (b + 1 - a) ≠ [] := by
+      intro e
+      have := congrArg List.length e
+      simp only [List.length_take, List.length_drop, List.length_nil] at this
+      omega
+    have hdr : ∀ x ∈ (srcLines src).drop (b + 1), '\n' ∉ x := fun x hx =>
+      splitOn_mem_no_sep '\n' src x (List.mem_of_mem_drop hx)
+    have hdne : (srcLines src).drop (b + 1) ≠ [] := by
+      intro e
+      have := congrArg List.length e
+      simp only [List.length_drop, List.length_nil] at this
+      omega
+    unfold srcLines at *
+    rw [List.append_assoc, splitOn_flatMap_append _ _ hsl, List.append_assoc]
+    simp only [List.singleton_append]
+    rw [splitOn_joinWith_append '\n' _ _ hpne hpk, splitOn_joinWith '\n' _ hdne hdr]
+    simp [List.append_assoc]
+
+/-- non-vacuity of `c15_range_edit`: re-indenting the middle line of three -/
+example : srcLines (applyLineEdit (txt "a\nb\nc") { sl := 1, sc := 0, el := 2, ec := 0, newText := txt "  b\n" }) =
+    [txt "a", txt "  b", txt "c"] :=
+  c15_range_edit (txt "a\nb\nc") (txt "a\n  b\nc") 1 1 _ (by decide) (by decide) (by decide) (by decide) (by decide)
+
+def wrapSrc : Text := txt "foo(aaaaaaaa, bbbbbbbbb, ccccccccc);\nx := 1;\n"
+
+def wrapDoc : Doc :=
+  { lines := [
+      lineOf "foo(aaaaaaaa, bbbbbbbbb, ccccccccc);"
+        [tk "Ident" .Ident "foo", tk "LParen" .LParen "(", tk "Ident" .Ident "aaaaaaaa", tk "Comma" .Comma ",",
+         tk "Ident" .Ident "bbbbbbbbb", tk "Comma" .Comma ",", tk "Ident" .Ident "ccccccccc", tk "RParen" .RParen ")",
+         tk "Semicolon" .Semicolon ";"],
+      lineOf "x := 1;"
+        [tk "Ident" .Ident "x", tk "Assign" .Assign ":=", tk "IntLiteral" .IntLiteral "1", tk "Semicolon" .Semicolon ";"],
+      lineOf "" []],
+    crlf := false, endsNl := true }
+
+/-- Clause 3 is FALSE of the code: after `wrap_long_lines` split line 0 into three, on-type formatting of
+line 1 (`x := 1;`) returns the formatted line with index 1 — the second piece of line 0 — so applying the
+edit deletes `x := 1;` and duplicates `bbbbbbbbb,`.  Known finding C15-wrap-range-index; replayed
+through `textDocument/onTypeFormatting`. -/
+theorem c15_range_edit_counterexample :
+    onTypeFormat { cfgDefault with maxLen := some 20 } wrapSrc wrapDoc 1 =
+      .edits [{ sl := 1, sc := 0, el := 2, ec := 0, newText := txt "    bbbbbbbbb,\n" }] ∧
+    srcLines (applyLineEdit wrapSrc { sl := 1, sc := 0, el := 2, ec := 0, newText := txt "    bbbbbbbbb,\n" }) =
+      [txt "foo(aaaaaaaa, bbbbbbbbb, ccccccccc);", txt "    bbbbbbbbb,", txt ""] := by
+  decide +kernel
+
+/-- Clause 2 (idempotence) is FALSE of the LSP formatter for the same text: the continuation indent of a
+wrapped line is not reproduced by the second run.  Known finding C15-wrap-not-idempotent (the second
+document is the first output, with the tokens the real lexer finds in it). -/
+theorem c15_wrap_idempotent_counterexample :
+    formatDocument { cfgDefault with maxLen := some 20 } wrapDoc =
+      some (txt "foo(aaaaaaaa,\n    bbbbbbbbb,\n    ccccccccc);\nx := 1;\n") ∧
+    formatDocument { cfgDefault with maxLen := some 20 }
+      { lines := [
+          lineOf "foo(aaaaaaaa," [tk "Ident" .Ident "foo", tk "LParen" .LParen "(", tk "Ident" .Ident "aaaaaaaa",
+                                  tk "Comma" .Comma ","],
+          lineOf "    bbbbbbbbb," [tk "Ident" .Ident "bbbbbbbbb", tk "Comma" .Comma ","],
+          lineOf "    ccccccccc);" [tk "Ident" .Ident "ccccccccc", tk "RParen" .RParen ")",
+                                    tk "Semicolon" .Semicolon ";"],
+          lineOf "x := 1;" [tk "Ident" .Ident "x", tk "Assign" .Assign ":=", tk "IntLiteral" .IntLiteral "1",
+                            tk "Semicolon" .Semicolon ";"],
+          lineOf "" []],
+        crlf := false, endsNl := true } =
+      some (txt "foo(aaaaaaaa,\nbbbbbbbbb,\nccccccccc);\nx := 1;\n") := by
+  decide +kernel
+
+/-- `textDocument/formatting` answers with no edit when the text is already formatted, and otherwise with
+exactly one edit that replaces the whole document (from 0:0 to the end position) by the formatted text. -/
+theorem c15_full_edit (cfg : Config) (src : Text) (d : Doc) (es : List Edit)
+    (h : fullFormat cfg src d = .edits es) :
+    (es = [] ∧ formatDocument cfg d = some src) ∨
+    ∃ f, formatDocument cfg d = some f ∧ f ≠ src ∧
+      es = [{ sl := 0, sc := 0, el := (endPosition src).1, ec := (endPosition src).2, newText := f }] := by
+  unfold fullFormat at h
+  split at h
+  · exact absurd h (by simp)
+  · rename_i f hf
+    split at h
+    · rename_i heq
+      left
+      simp only [Reply.edits.injEq] at h
+      exact ⟨h.symm, by rw [hf, heq]⟩
+    · rename_i hne
+      right
+      simp only [Reply.edits.injEq] at h
+      exact ⟨f, hf, hne, h.symm⟩
 
 end TrustVerif.C15
